@@ -1,4 +1,7 @@
+//@ variant: d0 DEFS=-DXV_DIR=0
+//@ variant: d1 DEFS=-DXV_DIR=1
 //@ tu: tools/xcmrelay/xrelay.c
+//@ defs: $DEFS
 //@ enforce: xfwd_await_output
 //@ props: C20
 //@ expect: postcondition>=3 canary=2
@@ -7,10 +10,9 @@ void harness(void)
 {
     xv_ghost_havoc();
     xv_relay_havoc();
-    struct xfwd *relay;
+    XV_RELAY_SETUP;
     int c0 = xv_legs[0].cond, c1 = xv_legs[1].cond;
     xfwd_await_output(relay);
-    if (xv_src == 0 && c0 == XCM_SO_RECEIVABLE && c1 == XCM_SO_RECEIVABLE && xv_legs[0].cond == 0 && xv_legs[1].cond == (XCM_SO_SENDABLE | XCM_SO_RECEIVABLE))
-        XV_CANARY("direction 0: switched from input to output, other direction's bits untouched");
-    if (xv_src == 1 && c0 == XCM_SO_RECEIVABLE && xv_legs[0].cond == (XCM_SO_SENDABLE | XCM_SO_RECEIVABLE)) XV_CANARY("direction 1");
+    if (c0 == XCM_SO_RECEIVABLE && c1 == XCM_SO_RECEIVABLE) XV_CANARY("switched from input to output while the other direction awaits input");
+    if (xv_legs[0].cond == XCM_SO_SENDABLE && xv_legs[1].cond == XCM_SO_SENDABLE) XV_CANARY("both directions under back-pressure afterwards");
 }
